@@ -71,6 +71,13 @@ CLAIMED = {
                   'and by checking every diagnostic of ~1600 fault-injected models (7 fault kinds at token positions, 5 layouts) against xml.etree: unique element, line inside its text, columns inside the line, attribution to the faulted block.',
              design='4/C06',
              note='Trusted: hand model Position.v, the Python re-implementation of lexeme boundaries, xml.etree. The XPath construction (sibling counting) is decided by the DOM oracle only. Known finding: C06-string-literal-newline.'),
+ 'C15': dict(technique='Coq proof over an access-order model of the parser\'s process-global state (no global read before written except counter and start condition), translation invariance of position lookup, machine-checked wrap refutation; history-vs-fresh-process oracle',
+             text='For parse_XTA(part), parseProperty, parse_XTA(text) and parse_XML with any number of blocks, the only globals a call reads before writing are the running position counter and the scanner start condition; '
+                  'path/line/column of every offset are independent of the counter\'s value (from the C06 theorem); below 2^32 the index accepts every entry, at the wrap add() throws (C15_wrap_refuted, known finding). '
+                  'Tied by grammar checks on the regenerated grammar (types / rootTransId written before read) and by random histories of 2-8 calls - including calls that end in exceptions, unterminated comments and aborted array declarations, '
+                  'with the counter seeded around 2^31 and 2^32 - each compared with the same call in a fresh process.',
+             design='4/C15',
+             note='Trusted: hand model State.v (access order read off the source), utapdump, the grammar reader. bison\'s stacks are local and outside the model. Known finding: C15-position-wrap.'),
 }
 NOT_YET = 'check not built yet in this revision (work in progress, see DESIGN.md section 7 staging)'
 m = dict(version=1, setup_cmd='tools/setup.sh',
